@@ -38,6 +38,7 @@ func runC09(c *Ctx) {
 	c.Rule("C09.R3", "idle list only touched under the pool mutex; close handler updates list, closed flag and count in one critical section", 14)
 	c.Rule("C09.R4", "client count incremented before connecting is decremented whenever no client is handed out", 2)
 	c.Rule("C09.R5", "stream destroy listeners run once", 1)
+	c.Rule("C09.R6", "no connection is closed while the pool mutex is held (the synchronous close handler takes the same mutex)", 3)
 	c.NotDecided = append(c.NotDecided, "equality of counters with the truth over arbitrary histories", "idle-timeout / keep-alive behaviour", "the multiplex and binding pools (connections are shared or bound by design, not leased)")
 	c.Assumptions = append(c.Assumptions, "connection.Close delivers its close event synchronously to the registered listeners (so `closed` is set before OnDestroyStream re-pools)", "sync.Mutex semantics")
 
@@ -47,6 +48,7 @@ func runC09(c *Ctx) {
 		c09Locks(c, p)
 	}
 	c09Count(c)
+	c09NoCloseUnderLock(c)
 	if fn := c.M("pkg/stream", "BaseStream", "DestroyStream"); fn == nil {
 		c.Unresolved("C09.R5", "(*BaseStream).DestroyStream")
 	} else {
@@ -514,4 +516,42 @@ func c09Count(c *Ctx) {
 		}
 	})
 	c.Check("C09.R4", funcKey(pf)+":count-on-success", pf.Pos(), okInc && nInc == 1, "the client is counted only when it was created successfully", "the ping-pong pool counts a client that was not created (or counts it on several paths)")
+}
+
+// R6: closing a client's connection delivers the close event synchronously to the pool's handler, which locks
+// clientMux; doing it while clientMux is held is a self-deadlock (pool shutdown hangs).
+func c09NoCloseUnderLock(c *Ctx) {
+	for _, pk := range []struct{ pkg, typ string }{{"pkg/stream/http", "connPool"}, {"pkg/stream/xprotocol", "poolPingPong"}, {"pkg/stream/xprotocol", "poolBinding"}} {
+		fn := c.M(pk.pkg, pk.typ, "Close")
+		if fn == nil {
+			c.Unresolved("C09.R6", pk.typ+".Close")
+			continue
+		}
+		closes := callsIn(fn, true, func(cc *ssa.CallCommon) bool { return methodName(cc) == "Close" })
+		bad := 0
+		for _, cs := range closes {
+			if cs.Fn == fn && lockHeld(cs.Instr, "clientMux") {
+				bad++
+			}
+		}
+		c.Check("C09.R6", funcKey(fn)+":close-outside-lock", fn.Pos(), len(closes) > 0 && bad == 0, fmt.Sprintf("%d Close call(s), none while clientMux is held", len(closes)),
+			"the pool closes a client's connection while holding clientMux; the close event handler locks clientMux again: pool shutdown deadlocks as soon as one idle client exists")
+	}
+	// and in general: no method of these pools calls a client's Close()/connection Close with the mutex held
+	for _, pkg := range []string{"pkg/stream/http", "pkg/stream/xprotocol"} {
+		for _, fn := range c.PkgFuncs(pkg) {
+			if fn.Signature.Recv() == nil {
+				continue
+			}
+			rt := shortTypeName(fn.Signature.Recv().Type())
+			if rt != "connPool" && rt != "poolPingPong" && rt != "poolBinding" {
+				continue
+			}
+			for _, cs := range callsIn(fn, false, func(cc *ssa.CallCommon) bool { return methodName(cc) == "Close" && cc.IsInvoke() }) {
+				if lockHeld(cs.Instr, "clientMux") {
+					c.Fail("C09.R6", funcKey(fn)+":close-under-lock", cs.Instr.Pos(), "connection closed while clientMux is held (self-deadlock through the synchronous close event)")
+				}
+			}
+		}
+	}
 }
